@@ -229,6 +229,18 @@ def run(ctx):
     bad = ctx.coq_eval_failing(HEADER, "corr_case", "corr_check", [c for _, c in corr], shard=60)
     bad_idx = {corr[i][0] for i in bad}
     ctx.cov["disagreements_checked"] = len(bad)
+    # evidence only: how many accepted kernels lie in the fully static class of C19_dot_adjoint_static
+    # (safe && literal loops && alias_free) and in the alias_free class alone
+    hdr2 = HEADER.replace("C19.Model.", "C19.Model C19.Static.")
+    nonstatic = ctx.coq_eval_failing(hdr2, "corr_case", "static_check", [c for _, c in corr], shard=60)
+    nonaf = ctx.coq_eval_failing(hdr2, "corr_case",
+                                 "(fun c => match c with (_, _, ac, tl, _) => alias_free ac tl end)",
+                                 [c for _, c in corr], shard=60)
+    ctx.notes["accepted_kernels_in_static_class"] = len(corr) - len(nonstatic)
+    ctx.notes["accepted_kernels_alias_free"] = len(corr) - len(nonaf)
+    ctx.notes["accepted_kernels_total"] = len(corr)
+    static_failed = [i for i, _, _ in failures if i in {corr[k][0] for k in range(len(corr))} - {corr[k][0] for k in nonstatic}]
+    ctx.notes["identity_failures_inside_static_class"] = len(static_failed)
     ctx.log("kernels=%d accepted=%d refused=%d identity evaluations=%d failures=%d model/impl tree disagreements=%d"
             % (len(cases), nacc, nrej, nev, len(failures), len(bad)))
     # ---- verdict
